@@ -36,6 +36,7 @@ def backoffHi (c : BackoffCfg) (n : Nat) : Int := (base c n * (1 + c.jitter)).ce
 /-! ### RetryWithBackoff -/
 
 inductive Outcome | ok | perm | trans | breakerOpen
+  | transCancel   -- a transient error from an invocation that itself cancelled the context before returning
   deriving DecidableEq, Repr
 
 inductive RetryResult | ok | permanent | maxExceeded | cancelled | breakerOpen | exhausted
@@ -70,6 +71,7 @@ def retryLoop (maxAttempts : Int) (tc : Option Nat) :
     else if o = .ok then ⟨.ok, (now :: calls).reverse⟩
     else if o = .perm then ⟨.permanent, (now :: calls).reverse⟩
     else if maxAttempts > 0 ∧ (attempt : Int) ≥ maxAttempts - 1 then ⟨.maxExceeded, (now :: calls).reverse⟩
+    else if o = .transCancel then ⟨.cancelled, (now :: calls).reverse⟩   -- the select sees Done (or the next iteration's check does)
     else if cancelInWait tc now d tie then ⟨.cancelled, (now :: calls).reverse⟩
     else retryLoop maxAttempts tc (attempt + 1) (now + d) rest (now :: calls)
 
